@@ -249,10 +249,7 @@ def run(tier):
 
     corr_n = declined = 0
     if model_ok:
-        # systemPartial is outside the modelled library (the model would decline): those programs are decided by the
-        # reference interpreter above; the correspondence budget goes to programs the model can run
-        idx = [i for i, m in enumerate(meta) if m in ('seed', 'program') and 'model' in impl[i] and 'host' not in impl[i]
-               and (i < 6 or not re.search(r'systemPartial', cases[i]['text']))]
+        idx = [i for i, m in enumerate(meta) if m in ('seed', 'program') and 'model' in impl[i] and 'host' not in impl[i]]
         budget = 350 if tier == 'quick' else 3000
         if len(idx) > budget:
             idx = idx[:6] + sorted(r.sample(idx[6:], budget - 6))
